@@ -42,7 +42,7 @@ def opt(o):
     return None if len(o) == 0 else o[0]
 
 
-def item_key(it):
+def item_key(it, as_list=False):
     t = it["t"]
     if t == "int":
         return it["i"]
@@ -53,7 +53,7 @@ def item_key(it):
     if t == "new":
         return None
     if t == "arr":
-        return np.array(it["ix"])
+        return list(it["ix"]) if as_list else np.array(it["ix"])      # both documented integer-array forms
     raise AssertionError(t)
 
 
@@ -138,7 +138,7 @@ def call_op(sg, op, a, T, variant=0):
     if op == "unbind":
         return sg.unbind(x, a["dim"])[a["t"] - 1]
     if op == "getitem":
-        keys = [item_key(it) for it in a["items"]]
+        keys = [item_key(it, as_list=(variant == 1)) for it in a["items"]]
         return x[keys[0]] if len(keys) == 1 else x[tuple(keys)]
     raise AssertionError("unknown op " + op)
 
